@@ -37,8 +37,9 @@ func (c *chanTicker) Done()                  { c.done <- struct{}{} }
 func (c *chanTicker) Poll()                  { c.ch <- time.Now(); <-c.done }
 
 type COp struct {
-	Kind string `json:"kind"` // lookup | set | poll | read | advance | restart
-	Name string `json:"name,omitempty"`
+	Kind      string   `json:"kind"` // lookup | set | poll | read | advance | restart
+	Name      string   `json:"name,omitempty"`
+	Redeclare []string `json:"redeclare,omitempty"` // restart: declared set of the next process (nil = unchanged)
 }
 
 type CacheHistCase struct {
@@ -86,21 +87,35 @@ func runC13Hist(t *testing.T, c CacheHistCase) (*h.Violation, h.Info) {
 	var st *setec.Store
 	var tick *chanTicker
 	checked := 0
+	declared := c.Declared
 	start := func() *h.Violation {
 		tick = newChanTicker()
 		var err error
+		fetchNeeded := ""
+		for _, d := range declared {
+			if known[d] == nil {
+				fetchNeeded = d
+			}
+		}
+		w0 := cache.NumWriteCalls()
+		defer func() {
+			_ = w0
+		}()
 		st, err = setec.NewStore(context.Background(), setec.StoreConfig{
-			Client: svc, Secrets: append([]string{}, c.Declared...), AllowLookup: true, Cache: cache,
+			Client: svc, Secrets: append([]string{}, declared...), AllowLookup: true, Cache: cache,
 			PollTicker: tick, TimeNow: clock.Now, Logf: nolog,
 		})
 		if err != nil {
 			return h.V("store-survives-cache-failures", "NewStore failed (cache read fails=%v, failing writes=%v): %v", c.FailRead, c.FailWrite, err)
 		}
-		for _, d := range c.Declared {
+		for _, d := range declared {
 			if known[d] == nil {
 				v, _, _ := svc.Active(d)
 				known[d] = &c13model{ver: v, last: clock.Unix()}
 			}
+		}
+		if fetchNeeded != "" && cache.NumWriteCalls() == w0 {
+			return h.V("written-at-initial-fetch", "start-up fetched %q (declared, not in the cache) but did not write the cache (declared %v)", fetchNeeded, declared)
 		}
 		return nil
 	}
@@ -136,7 +151,7 @@ func runC13Hist(t *testing.T, c CacheHistCase) (*h.Violation, h.Info) {
 			}
 			// a new store from these bytes with the service unreachable serves exactly those values
 			dead := fake.NewSvc()
-			st2, err := setec.NewStore(context.Background(), setec.StoreConfig{Client: dead, Secrets: append([]string{}, c.Declared...), AllowLookup: true, Cache: fake.NewCache(data), PollInterval: -1, Logf: nolog})
+			st2, err := setec.NewStore(context.Background(), setec.StoreConfig{Client: dead, Secrets: append([]string{}, declared...), AllowLookup: true, Cache: fake.NewCache(data), PollInterval: -1, Logf: nolog})
 			if err != nil {
 				return h.V("restart-from-cache-without-service", "step %d %s: a store started from the cache with the service unreachable failed: %v", step, what, err)
 			}
@@ -259,6 +274,10 @@ func runC13Hist(t *testing.T, c CacheHistCase) (*h.Violation, h.Info) {
 				}
 			}
 			handles = map[string]setec.Secret{}
+			if o.Redeclare != nil {
+				declared = o.Redeclare
+				info.Class("restart-with-different-declared-set")
+			}
 			if v := start(); v != nil {
 				return v, info
 			}
@@ -291,7 +310,11 @@ var c13hist = &h.Campaign[CacheHistCase]{
 	Gen: func(rt *rapid.T) CacheHistCase {
 		c := CacheHistCase{Declared: rapid.SampledFrom([][]string{{"d1"}, {"d1", "d2"}, {"d1", "empty"}}).Draw(rt, "declared")}
 		c.Ops = rapid.SliceOfN(rapid.Custom(func(rt *rapid.T) COp {
-			return COp{Kind: rapid.SampledFrom([]string{"lookup", "lookup", "set", "set", "poll", "poll", "read", "advance", "restart"}).Draw(rt, "kind"), Name: rapid.SampledFrom(c13Names).Draw(rt, "name")}
+			o := COp{Kind: rapid.SampledFrom([]string{"lookup", "lookup", "set", "set", "poll", "poll", "read", "advance", "restart"}).Draw(rt, "kind"), Name: rapid.SampledFrom(c13Names).Draw(rt, "name")}
+			if o.Kind == "restart" && rapid.IntRange(0, 2).Draw(rt, "redeclare") == 0 {
+				o.Redeclare = rapid.SampledFrom([][]string{{"d1"}, {"d2"}, {"d1", "d2"}, {"d2", "u1"}, {"u2"}}).Draw(rt, "newdecl")
+			}
+			return o
 		}), 1, 25).Draw(rt, "ops")
 		if rapid.IntRange(0, 3).Draw(rt, "faulty") == 0 {
 			c.FailRead = rapid.Bool().Draw(rt, "failread")
